@@ -2123,6 +2123,23 @@ def _op_intify(self, op):
     return None, None
 
 
+def _op_dropmode(self, op):
+    """Remove the storage-mode attribute of a symmetric-upper collection: files written before the
+    attribute existed (format v2) lack it and are symmetric-upper by definition."""
+    fid, path = op["file"], op["path"]
+    if fid not in self.fs.files:
+        raise Skip("no file")
+    node = self.fs.lookup(fid, path)
+    if node is None or not isinstance(node.coll, Coll) or not node.coll.symmetric or \
+            self.fs.canonical(fid, path) is None:
+        raise Skip("no symmetric collection")
+    with h5py.File(self.fpath(fid), "r+") as f:
+        f[path].attrs.pop("storage-mode", None)
+    node.coll.no_mode_attr = True
+    self.stat("storage-mode-attribute-dropped")
+    return None, None
+
+
 def _op_restart(self, op):
     """Drop every cached object, as a new process would start."""
     self.live.clear()
@@ -2136,6 +2153,7 @@ StoreRun.op_rename = _op_rename
 StoreRun.op_hold = _op_hold
 StoreRun.op_intify = _op_intify
 StoreRun.op_restart = _op_restart
+StoreRun.op_dropmode = _op_dropmode
 
 
 # ===========================================================================
